@@ -11,6 +11,12 @@
 ABTI_global *gp_ABTI_global; ABTD_XSTREAM_LOCAL ABTI_local *lp_ABTI_local;
 static ABTI_global G; static ABTI_xstream ES; static ABTI_sched S; static ABTI_ythread YS; static ABTI_pool P; static ABT_pool PS[1];
 static int queued, blocked, runs_done, calls, finish_set, cancel_set;
+/* scheduler replacement (ABT_xstream_set_main_sched from a ULT of this stream): the run function of the OLD scheduler returns with
+ * REQ_REPLACE set; the loop installs the new scheduler, releases the old one and only THEN resumes the waiting caller (the caller's
+ * ABT_xstream_set_main_sched returns as soon as it is resumed: the old scheduler must be gone and the new one in place by then) */
+static ABTI_sched SNEW; static ABTI_ythread WAITER; static ABTI_pool WP; static int replace_req, replaced, old_discarded, waiter_pushes, bad_order;
+void ABTI_sched_discard_and_free(ABTI_global *g, ABTI_local *l, ABTI_sched *sc, ABT_bool force) { __CPROVER_assert(sc == &S && sc->p_ythread == NULL, "the replaced scheduler is released without its ULT (which the new scheduler took over)"); old_discarded++; }
+static void w_push(ABT_pool p, ABT_unit u, ABT_pool_context c) { waiter_pushes++; if (!old_discarded || ES.p_main_sched != &SNEW || SNEW.used != ABTI_SCHED_MAIN || SNEW.p_ythread != &YS) bad_order = 1; }
 static ABT_bool p_is_empty(ABT_pool p) { return queued == 0 ? ABT_TRUE : ABT_FALSE; }
 ABTI_local *ABTI_local_get_local_uninlined(void) { return lp_ABTI_local; }
 ABT_bool ABTI_sched_has_unit(ABTI_sched *s)
@@ -23,21 +29,40 @@ static void run_stub(ABT_sched s)
     /* schedule some of the queued units (each runs to completion; a blocked one may be resumed and queued) */
     int k = nondet_int(); __CPROVER_assume(k >= 0 && k <= queued); queued -= k; runs_done += k;
     if (blocked > 0 && nondet_bool()) { blocked--; queued++; }
+#ifndef REPLACE
     if (!finish_set && nondet_bool()) { finish_set = 1; S.request.val |= ABTI_SCHED_REQ_FINISH; }
+#endif
     if (!cancel_set && nondet_bool()) { cancel_set = 1; YS.thread.request.val |= ABTI_THREAD_REQ_CANCEL; }
+#ifdef REPLACE
+    /* (deterministic placement: the first call of the old scheduler's run function returns with the replace request; a solver
+     * choice here makes the scheduler pointer symbolic for the rest of the loop -- no verdict in 900 s) */
+    if (calls == 1) { replace_req = 1; S.request.val |= ABTI_SCHED_REQ_REPLACE; S.p_replace_sched = &SNEW; S.p_replace_waiter = &WAITER; }
+    if (calls == 2 && !finish_set) { finish_set = 1; SNEW.request.val |= ABTI_SCHED_REQ_FINISH; }
+#endif
     /* ... and return, possibly with units still queued */
 }
 int main(void)
 {
     gp_ABTI_global = &G; lp_ABTI_local = (ABTI_local *)&ES;
     ES.p_main_sched = &S; ES.p_thread = &YS.thread; S.p_ythread = &YS; S.run = run_stub; S.pools = PS; PS[0] = (ABT_pool)&P; S.num_pools = 1; S.used = ABTI_SCHED_MAIN;
+    SNEW.run = run_stub; SNEW.pools = PS; SNEW.num_pools = 1; SNEW.used = ABTI_SCHED_NOT_USED; SNEW.p_ythread = NULL;
+    WAITER.thread.type = ABTI_THREAD_TYPE_THREAD | ABTI_THREAD_TYPE_YIELDABLE | ABTI_THREAD_TYPE_NAMED; WAITER.thread.state.val = ABT_THREAD_STATE_BLOCKED; WAITER.thread.p_pool = &WP; ABTI_unit_init_builtin(&WAITER.thread);
+    WP.is_builtin = ABT_TRUE; WP.num_blocked.val = 1; WP.required_def.p_push = w_push;
     P.access = ABT_POOL_ACCESS_MPSC; P.num_scheds.val = 1; P.required_def.p_is_empty = p_is_empty;
     queued = nondet_int(); blocked = nondet_int(); __CPROVER_assume(queued >= 0 && queued <= 3 && blocked >= 0 && blocked <= 1);
+#ifdef REPLACE
+    __CPROVER_assume(queued == 0 && blocked == 0);
+#endif
     int total = queued + blocked;
     thread_main_sched_func(NULL);
     VR_ASSERT(cancel_set || finish_set, "the main scheduler finishes only on a cancel or a finish/join request");
     VR_ASSERT(cancel_set || (queued == 0 && blocked == 0), "on a join the stream terminates only after every unit of its pools has run (none queued, none blocked) -- also when the scheduler's run function returned early");
+#ifdef REPLACE
+    if (replace_req && !cancel_set) { VR_ASSERT(waiter_pushes == 1 && old_discarded == 1 && !bad_order && WAITER.thread.state.val == ABT_THREAD_STATE_READY && WP.num_blocked.val == 0, "scheduler replacement: the caller of ABT_xstream_set_main_sched is resumed exactly once, and only after the new scheduler is installed (MAIN, owning the scheduler ULT) and the old one has been released"); VR_ASSERT(ES.p_main_sched == &SNEW, "the stream continues under the new scheduler"); VR_WITNESS("main scheduler replaced"); }
+#endif
+#ifndef REPLACE
     if (!cancel_set && total >= 2 && calls >= 2) VR_WITNESS("the run function returned early with units queued and a finish request pending; the loop called it again");
     if (cancel_set && queued > 0) VR_WITNESS("cancel terminates regardless of remaining units");
+#endif
     return 0;
 }
